@@ -20,8 +20,8 @@ from simkit.world import World
 PROP = "C08"
 LEVEL = "fault_enumeration"
 TIERS = {
-    "quick": dict(runs=400, timeout=300, fault_budget=14, shrink_seconds=120, shrink_steps=120),
-    "thorough": dict(runs=2500, timeout=900, fault_budget=400, shrink_seconds=400, shrink_steps=400),
+    "quick": dict(runs=400, timeout=300, fault_budget=14, p_e2e=0.04, e2e_fault_budget=6, shrink_seconds=120, shrink_steps=120),
+    "thorough": dict(runs=2500, timeout=900, fault_budget=400, p_e2e=0.1, e2e_fault_budget=40, shrink_seconds=400, shrink_steps=400),
 }
 
 SENTINEL = "SENTINEL: previous content of the output location\n"
@@ -44,6 +44,15 @@ def size(trace):
 # ------------------------------------------------------------------ generation
 
 def generate(rng, index, cfg):
+    if rng.random() < cfg.get("p_e2e", 0.05):
+        base, local, remote = nbgen.triple(rng, max_cells=rng.choice([1, 2]), overlap=rng.choice([0.3, 1.0]), minor=rng.choice([4, 5]),
+                                           kinds=rng.choice([None, ["src"] * 5 + ["out", "md", "ins"]]))
+        flags = []
+        if rng.random() < 0.5:
+            flags += ["--merge-strategy", rng.choice(MERGE_STRATS)]
+        sc = {"entry": "e2e", "shape": "plain", "triple": {"base": base, "local": local, "remote": remote}, "flags": flags,
+              "out": "inplace", "decisions": False, "helpers": ["git", "diff3", "diff"], "line_faults": 0}
+        return {"scenario": sc, "fault_budget": cfg.get("e2e_fault_budget", 6), "explicit_faults": None}
     entry = rng.choice(["nbmerge", "nbmerge", "driver"])
     base, local, remote = nbgen.triple(rng, max_cells=rng.choice([1, 2, 3]), overlap=rng.choice([0.3, 0.7, 1.0]),
                                        minor=rng.choice([4, 5]), kinds=rng.choice([None, ["src"] * 5 + ["out", "md", "ins"]]))
@@ -449,6 +458,8 @@ def _enumerate_faults(ref_events, sc, rng, budget, line_total):
 
 def execute(trace, scratch):
     sc = trace["scenario"]
+    if sc["entry"] == "e2e":
+        return execute_e2e(trace, scratch)
     core.set_nested_scratch(os.path.join(scratch, "passes"))
     violations = []
     stats = {}
@@ -517,6 +528,192 @@ def execute(trace, scratch):
               "faults_tried": len(faults), "faults_possible": total, "outcomes": outcomes}
     out = {"violations": violations, "digest": log.digest(), "events": len(ref["events"]) * (1 + len(faults)),
            "stats": stats, "distinct": {k: sorted(v) for k, v in distinct.items()}, "sample": sample}
+    if first_violating is not None:
+        out["violating_fault"] = first_violating
+    return out
+
+
+# ------------------------------------------------------------------ end-to-end arm: real `git merge`, real SIGKILL
+
+def execute_e2e(trace, scratch):
+    """A sandbox repository whose merge driver is a shim that installs the same seams from a plan file and calls the real
+    driver main; real `git merge` runs it.  Plans include a real SIGKILL of the driver at a chosen seam event."""
+    import nbformat
+    from simkit.world import real_run
+    sc = trace["scenario"]
+    w = World(scratch, helpers=("git", "diff3", "diff"))
+    log = EventLog(keep=False)
+    log.add_subst(w.root, "$S")
+    violations, stats = [], {}
+    distinct = {"fault_site": set(), "scenario_shape": set()}
+
+    def stat(k, n=1):
+        stats[k] = stats.get(k, 0) + n
+
+    def violate(oracle, sig, detail):
+        log.ev("violation", oracle=oracle, sig=sig)
+        violations.append(Violation(oracle, sig, detail))
+
+    shim = os.path.join(w.bin, "git-nbmergedriver")
+    with open(shim, "w") as f:
+        f.write("#!/bin/sh\nexec '%s' '%s' \"$@\"\n" % (sys.executable, os.path.join(core.VERIF, "simkit", "e2e_shim.py")))
+    os.chmod(shim, 0o755)
+    plan_file = os.path.join(w.root, "plan.json")
+    log_file = os.path.join(w.root, "driver.log")
+    extra = {"VERIF_E2E_PLAN": plan_file, "VERIF_E2E_LOG": log_file, "VERIF_E2E_ROOT": w.root}
+    nbpath = os.path.join(w.work, "nb.ipynb")
+
+    def write_nb(nb):
+        with open(nbpath, "w", encoding="utf8") as f:
+            json.dump(nb, f, indent=1)
+            f.write("\n")
+    w.git("init", "-q", "-b", "main", ".")
+    w.git("config", "merge.jupyternotebook.driver", "git-nbmergedriver merge %s %%O %%A %%B %%L %%P" % " ".join(sc["flags"]))
+    w.git("config", "merge.jupyternotebook.name", "jupyter notebook merge driver")
+    with open(os.path.join(w.work, ".git", "info", "attributes"), "w") as f:
+        f.write("*.ipynb\tmerge=jupyternotebook\n")
+    write_nb(sc["triple"]["base"])
+    w.git("add", "nb.ipynb")
+    w.git("commit", "-q", "-m", "base")
+    w.git("checkout", "-q", "-b", "theirs")
+    write_nb(sc["triple"]["remote"])
+    w.tick()
+    w.git("commit", "-q", "--allow-empty", "-am", "remote")
+    w.git("checkout", "-q", "main")
+    write_nb(sc["triple"]["local"])
+    w.tick()
+    w.git("commit", "-q", "--allow-empty", "-am", "local")
+    pre = w.git("rev-parse", "HEAD").stdout.decode().strip()
+
+    def norm_text(text):
+        try:
+            return _canon_nb(nbformat.reads(text, as_version=4))
+        except Exception:
+            return {"__unparsable__": (text or "")[:200]}
+
+    def one(plan):
+        with open(plan_file, "w") as f:
+            json.dump(plan, f)
+        open(log_file, "w").close()
+        w.tick()
+        p = w.git("merge", "--no-edit", "-q", "theirs", check=False, env_extra=extra)
+        obs = {"rc": p.returncode, "unmerged": bool(w.git("ls-files", "-u").stdout.strip()),
+               "head": w.git("rev-parse", "HEAD").stdout.decode().strip()}
+        obs["committed"] = obs["head"] != pre
+        blob = w.git("show", "HEAD:nb.ipynb", check=False)
+        obs["head_nb"] = norm_text(blob.stdout.decode("utf8", "replace")) if blob.returncode == 0 else None
+        try:
+            with open(nbpath, encoding="utf8") as f:
+                obs["work_nb"] = norm_text(f.read())
+        except OSError:
+            obs["work_nb"] = None
+        recs = []
+        with open(log_file) as f:
+            for line in f:
+                try:
+                    recs.append(json.loads(line))
+                except ValueError:
+                    pass
+        obs["events"] = [r["seam"] for r in recs if "seam" in r]
+        obs["fired"] = [r["fault"] for r in recs if "fault" in r]
+        obs["killed"] = any("killed" in r for r in recs)
+        cap = [r["captured"] for r in recs if "captured" in r]
+        obs["captured"] = cap[-1] if cap else None
+        obs["driver_exit"] = next((r["exit"] for r in recs if "exit" in r), None)
+        w.git("merge", "--abort", check=False)
+        w.git("reset", "--hard", "-q", pre)
+        for fn in os.listdir(w.work):
+            if fn.startswith(".merge_file_"):
+                os.remove(os.path.join(w.work, fn))
+        return obs
+
+    sig0 = {"entry": "e2e", "out": "inplace", "shape": "plain", "fault": None}
+    ref = one([])
+    stat("passes")
+    stat("reference_passes")
+    stat("scenario_entry_e2e")
+    stat("e2e_git_merges")
+    log.ev("reference", rc=ref["rc"], events=ref["events"], committed=ref["committed"])
+    if not ref["events"] and ref["captured"] is None:
+        # git settled the merge without calling the driver (both sides made the same change, fast-forward, ...)
+        stat("scenario_e2e_driver_not_invoked")
+        return {"violations": [], "digest": log.digest(), "events": 0, "stats": stats,
+                "distinct": {k: sorted(v) for k, v in distinct.items()}, "sample": None}
+    if ref["captured"] is None:
+        # driver never got to a merge result on its own (input-determined): git must not have committed anything
+        if ref["committed"] or ref["rc"] == 0:
+            violate("E", dict(sig0, what="committed_without_result"), "git merge succeeded although the driver never produced a merge result")
+        kind = "input_determined_failure"
+        want = None
+    else:
+        want = _norm_written(ref["captured"]["merged"])
+        known = _collect_ids([sc["triple"][k] for k in ("base", "local", "remote")])
+        if ref["captured"]["conflict"]:
+            kind = "conflicted"
+            if ref["rc"] == 0 or ref["committed"] or not ref["unmerged"]:
+                violate("E", dict(sig0, what="conflict_committed"), "the driver reported conflicts but git merge rc=%s committed=%s unmerged=%s" % (ref["rc"], ref["committed"], ref["unmerged"]))
+            elif _mask_ids(ref["work_nb"], known) != _mask_ids(want, known):
+                violate("E", dict(sig0, what="worktree_content"), "conflicted merge: the working-tree file does not hold the driver's merged notebook")
+        else:
+            kind = "clean"
+            if ref["rc"] != 0 or not ref["committed"] or ref["unmerged"]:
+                violate("E", dict(sig0, what="clean_not_committed"), "clean driver merge but git merge rc=%s committed=%s unmerged=%s" % (ref["rc"], ref["committed"], ref["unmerged"]))
+            elif _mask_ids(ref["head_nb"], known) != _mask_ids(want, known):
+                violate("E", dict(sig0, what="committed_content"), "git committed a blob that differs from the driver's merged notebook")
+    stat("scenario_e2e_" + kind)
+    distinct["scenario_shape"].add(core.sha(["e2e", kind, sc["flags"]])[:12])
+    rng = random.Random(int(str(trace.get("run_seed") or "1"), 16) ^ 0xE2E)
+    explicit = trace.get("explicit_faults")
+    if explicit is not None:
+        faults = list(explicit)
+    else:
+        faults, total = _enumerate_faults(ref["events"], sc, rng, trace.get("fault_budget", 6), None)
+        kills = [f for f in faults if f["kind"] == "kill"]
+        if not kills:
+            cand = [e for e in ref["events"] if e[0] in ("write", "open_w", "close", "phase")]
+            if cand:
+                faults.append({"at": list(rng.choice(cand)), "kind": "kill"})
+        stat("single_faults_possible", total)
+    first_violating = None
+    known = _collect_ids([sc["triple"][k] for k in ("base", "local", "remote")])
+    for f in faults:
+        obs = one([f])
+        stat("passes")
+        stat("fault_passes")
+        stat("e2e_git_merges")
+        nv = len(violations)
+        sig = {"entry": "e2e", "out": "inplace", "shape": "plain", "fault": f["kind"], "event": [f["at"][0], f["at"][1]]}
+        if not obs["fired"] and not obs["killed"]:
+            stat("outcome_not_fired")
+            continue
+        stat("fault_fired_" + f["kind"])
+        if obs["killed"]:
+            stat("probe_real_sigkill_of_driver")
+        distinct["fault_site"].add("e2e|%s|%s|%s" % (f["at"][0], str(f["at"][1]).split(":")[0], f["kind"]))
+        clean = obs["rc"] == 0 and obs["committed"] and not obs["unmerged"]
+        if clean:
+            if want is None or kind != "clean":
+                violate("E1", dict(sig, what="committed_without_clean_result"),
+                        "git committed a merge after fault %r although the fault-free driver run has %s" % (f, kind))
+            elif obs["captured"] is None or _mask_ids(obs["head_nb"], known) != _mask_ids(want, known):
+                violate("E1", dict(sig, what="committed_content"),
+                        "after fault %r git committed a blob that is not the complete merged notebook (driver exit %r, killed %s)" % (f, obs["driver_exit"], obs["killed"]))
+            else:
+                stat("outcome_complete")
+        else:
+            if obs["committed"]:
+                violate("E2", dict(sig, what="partial_commit"), "after fault %r git merge rc=%s but a commit was created" % (f, obs["rc"]))
+            elif obs["killed"] or (obs["driver_exit"] not in (0, None)) or obs["driver_exit"] is None:
+                stat("outcome_failed_clean")
+            if (obs["killed"] or obs["driver_exit"] != 0) and obs["rc"] == 0:
+                violate("E2", dict(sig, what="git_success_after_driver_failure"), "driver failed/killed after %r but git merge exited 0" % (f,))
+        log.ev("pass", fault=f, rc=obs["rc"], committed=obs["committed"], unmerged=obs["unmerged"], killed=obs["killed"])
+        if len(violations) > nv and first_violating is None:
+            first_violating = f
+    sample = {"entry": "e2e", "flags": sc["flags"], "reference": {"git_rc": ref["rc"], "kind": kind, "seam_events": ref["events"][:40]},
+              "faults_tried": len(faults)}
+    out = {"violations": violations, "digest": log.digest(), "events": len(ref["events"]) * (1 + len(faults)), "stats": stats,
+           "distinct": {k: sorted(v) for k, v in distinct.items()}, "sample": sample}
     if first_violating is not None:
         out["violating_fault"] = first_violating
     return out
